@@ -263,6 +263,7 @@ PURE_EXTERNAL = {
     "collections.OrderedDict": lambda *a, **k: dict(*a, **k),
     "collections.Counter": lambda *a, **k: __import__("collections").Counter(*a, **k),
     "collections.deque": lambda *a, **k: __import__("collections").deque(*a, **k),
+    "difflib.get_close_matches": lambda w, poss, *a, **k: __import__("difflib").get_close_matches(str(w), [str(p_) for p_ in poss], *a, **k),
     "urllib.parse.urlparse": lambda u, *a, **k: __import__("urllib.parse").parse.urlparse(str(u), *a, **k),
     "urllib.parse.urlsplit": lambda u, *a, **k: __import__("urllib.parse").parse.urlsplit(str(u), *a, **k),
     "glob.has_magic": lambda s_: __import__("glob").has_magic(str(s_)), "glob.escape": lambda s_: __import__("glob").escape(str(s_)),
@@ -710,6 +711,7 @@ class PureInterp:
                     return name != "Exception" or kind != "CancelledError"
                 a_, b_ = getattr(_b, kind, None), getattr(_b, name, None)
                 return isinstance(a_, type) and isinstance(b_, type) and issubclass(a_, b_)
+            cur = None          # the exception travelling outwards through the exits (None: normal completion so far)
             try:
                 try:
                     # `with a, b:` enters b inside a: an exception raised while entering (or evaluating) a later item is seen by the earlier ones
@@ -731,22 +733,23 @@ class PureInterp:
                             self.assign(item.optional_vars, bound, env, module, depth)
                     self.block(st.body, env, module, depth)
                 except Raised as r_:
-                    if not any(isinstance(v, Obj) and v._name == "suppress" and any(_kind_is(r_.kind, k_) for k_ in v.kinds) for v in opened):
-                        body_exc = r_
-                        raise
+                    cur = r_
             finally:
-                pending = None
+                # every context manager's exit runs, innermost first, with the exception that is under way; an exit that returns a true value (or a matching
+                # contextlib.suppress) swallows it, an exit that raises replaces it
                 for v in reversed(opened):
-                    # every context manager's exit runs, also when an inner one raised (as in a real `with a, b:`)
                     try:
                         if isinstance(v, Obj) and v._name == "genctx":
-                            self._exit_genctx(v, pending or locals().get("body_exc"))
-                        else:
-                            self._exit_cm(v, depth)
+                            self._exit_genctx(v, cur)
+                        elif isinstance(v, Obj) and v._name == "suppress":
+                            if cur is not None and any(_kind_is(cur.kind, k_) for k_ in v.kinds):
+                                cur = None
+                        elif self._exit_cm(v, depth, cur) and cur is not None:
+                            cur = None
                     except Raised as exc_:
-                        pending = exc_
-                if pending is not None:
-                    raise pending
+                        cur = exc_
+                if cur is not None:
+                    raise cur
         elif isinstance(st, ast.Match):
             subject = self.eval(st.subject, env, module, depth)
             for case in st.cases:
@@ -994,7 +997,8 @@ class PureInterp:
             return          # (the generator swallowed the exception; the caller re-raises the original - gwf's helpers never suppress)
         # the generator re-raised (the usual case): the exception keeps propagating from the with statement
 
-    def _exit_cm(self, v, depth):
+    def _exit_cm(self, v, depth, exc=None):
+        """Leave one context manager; the value tells whether it swallowed the exception under way (a true return value of a __exit__ defined in the package)."""
         if isinstance(v, ModelExecutor):
             v.shutdown()
         elif isinstance(v, Obj) and v._name == "closing":
@@ -1010,7 +1014,8 @@ class PureInterp:
         elif isinstance(v, Obj) and v._name == "exitstack":
             self._unwind_exitstack(v, depth)
         elif isinstance(v, Obj) and self._dunder(v, "__exit__") is not None:
-            self.call(self._dunder(v, "__exit__"), (None, None, None), {}, self_obj=v, depth=depth + 1)
+            info = (None, None, None) if exc is None else (FuncRef("builtins." + exc.kind), getattr(exc, "obj", None) or self._exc_instance(exc), Obj("traceback"))
+            return bool(self.call(self._dunder(v, "__exit__"), info, {}, self_obj=v, depth=depth + 1))
         elif isinstance(v, Obj) and "with_exit" in self.hooks:
             self.hooks["with_exit"](v)
 
